@@ -440,6 +440,106 @@ ASeedsStep(S, cfg, D, fr, b) ==
                 ELSE <<D, [fr EXCEPT !.sc = @ + 1, !.succ = Front(@), !.unsound = @ \/ MustVisit(S, D, s, fr.emot)]>>
 
 ---------------------------------------------------------------------------
+(***************************************************************************)
+(* expand_source_blocks (expand_block, and the expansion half of build()). *)
+(* One step per node of the current BFS level; the motif-avoidance check   *)
+(* of a block (candidates / seeds of the block's component sub-diagram     *)
+(* empty?) is an oracle input, one answer per step, constrained by         *)
+(* soundness: a block whose sub-network has an attractor outside the       *)
+(* block's motifs may not be declared clean.                               *)
+(***************************************************************************)
+\* variables of the network percolated to sp that have identity dynamics on sp (source_nodes(node_bn))
+NodeSources(S, sp) == {i \in FreeV(sp) : \A s \in StOf(S.nt, sp) : F(S.nt, i, s) = Bit(s, i)}
+\* backward closure under the (semantic) regulators of the network percolated to sp
+RECURSIVE RegClosure(_, _, _)
+RegClosure(S, sp, X) ==
+    LET nx == X \cup UNION {Regulators(S.nt, i, sp) : i \in X}
+    IN IF nx = X THEN X ELSE RegClosure(S, sp, nx)
+ReducedMotif(D, p, c) == LET m == D.edges[<<p, c>>][1] sp == D.nodes[p].space
+                         IN [i \in DOMAIN m |-> IF sp[i] # 2 THEN 2 ELSE m[i]]
+\* blocks of a node: sequence of [vars, nodes] in order of first appearance (successors ascending)
+RECURSIVE GroupBlocks(_, _, _, _, _)
+GroupBlocks(S, D, n, succ, acc) ==
+    IF succ = <<>> THEN acc
+    ELSE LET c  == Head(succ)
+             bv == RegClosure(S, D.nodes[n].space, Fixed(ReducedMotif(D, n, c)))
+             hit == {k \in DOMAIN acc : acc[k].vars = bv}
+         IN GroupBlocks(S, D, n, Tail(succ),
+                        IF hit = {} THEN Append(acc, [vars |-> bv, nodes |-> <<c>>])
+                        ELSE LET k == CHOOSE x \in hit : TRUE IN [acc EXCEPT ![k].nodes = Append(@, c)])
+MinimalBlocks(blocks) ==
+    IF Len(blocks) <= 1 THEN blocks
+    ELSE SelectSeq(blocks, LAMBDA b : ~\E k \in DOMAIN blocks : blocks[k].vars \subseteq b.vars /\ blocks[k].vars # b.vars)
+\* stable sort by the number of successor nodes
+BlockOrder(blocks) ==
+    LET idx == SetToSortSeq(DOMAIN blocks, LAMBDA a, b : Len(blocks[a].nodes) < Len(blocks[b].nodes)
+                                                       \/ (Len(blocks[a].nodes) = Len(blocks[b].nodes) /\ a < b))
+    IN [k \in DOMAIN idx |-> blocks[idx[k]]]
+\* does the sub-network induced by the block variables (on the node's space) have an attractor that lies
+\* in none of the block's (reduced) motifs?
+BlockHasOwnAttr(S, D, n, b) ==
+    LET sp   == D.nodes[n].space
+        reps == {s \in StOf(S.nt, sp) : \A i \in FreeV(sp) \ b.vars : Bit(s, i) = 0}
+        PostB(s) == {Flip(s, i) : i \in {j \in b.vars : Unstable(S.nt, j, s)}}
+        RECURSIVE Cl(_, _)
+        Cl(fr, seen) == IF fr = {} THEN seen
+                        ELSE LET nx == (UNION {PostB(s) : s \in fr}) \ seen IN Cl(nx, seen \cup nx)
+        R(s)  == Cl({s}, {s})
+        attrs == {R(s) : s \in {t \in reps : \A u \in R(t) : t \in R(u)}}
+        mots  == {ReducedMotif(D, n, b.nodes[k]) : k \in DOMAIN b.nodes}
+    IN \E A \in attrs : ~\E m \in mots : \A s \in A : In(s, m)
+
+BlockBegin(maa, size, optsrc, exact) ==
+    [op |-> "block", done |-> FALSE, ret |-> "none", err |-> FALSE, xl |-> <<>>, sc |-> 0,
+     cur |-> <<1>>, i |-> 1, nxt |-> {}, maa |-> maa, optsrc |-> optsrc, exact |-> exact, limsize |-> size,
+     phase |-> "node", mblocks |-> <<>>, bj |-> 0, unsound |-> FALSE]
+BlockNeedsOracle(fr) == fr.op = "block" /\ ~fr.done /\ fr.phase = "clean"
+\* the source fast-forward: all valuations of the source variables, first source most significant
+RECURSIVE SourceKids(_, _, _, _, _, _)
+SourceKids(S, D, n, srcs, m, acc) ==      \* srcs: ascending sequence; m: valuation index
+    IF m >= P2[Len(srcs) + 1] THEN <<D, acc>>
+    ELSE LET sp  == D.nodes[n].space
+             val == [i \in DOMAIN sp |->
+                        IF \E j \in DOMAIN srcs : srcs[j] = i
+                        THEN LET j == CHOOSE x \in DOMAIN srcs : srcs[x] = i IN (m \div P2[Len(srcs) - j + 1]) % 2
+                        ELSE sp[i]]
+             r   == EnsureNode(S, D, n, val)
+         IN SourceKids(S, r.d, n, srcs, m + 1, acc \cup {r.id})
+BlockStep(S, cfg, D, fr, b) ==
+    IF fr.phase = "clean" THEN
+        LET n   == fr.cur[fr.i]
+            blk == fr.mblocks[fr.bj]
+            bad == b /\ BlockHasOwnAttr(S, D, n, blk)
+        IN IF b THEN <<[D EXCEPT !.nodes[n].seeds = Known(<<>>), !.nodes[n].sets = Known(<<>>)],
+                       [fr EXCEPT !.nxt = @ \cup SeqToSet(blk.nodes), !.phase = "node", !.i = @ + 1, !.unsound = @ \/ bad]>>
+           ELSE IF fr.bj = Len(fr.mblocks)
+                THEN <<D, [fr EXCEPT !.nxt = @ \cup Succs(D, n), !.phase = "node", !.i = @ + 1]>>
+           ELSE <<D, [fr EXCEPT !.bj = @ + 1]>>
+    ELSE IF fr.i > Len(fr.cur) THEN
+        IF fr.nxt = {} THEN <<D, Finish(fr, "true")>>
+        ELSE <<D, [fr EXCEPT !.cur = SortAsc(fr.nxt), !.nxt = {}, !.i = 1]>>
+    ELSE LET n == fr.cur[fr.i] IN
+         IF D.nodes[n].expanded THEN <<D, [fr EXCEPT !.i = @ + 1]>>
+         ELSE IF fr.limsize # Unl /\ Len(D.nodes) >= fr.limsize THEN <<D, Finish(fr, "false")>>
+         ELSE LET srcs == SortAsc(NodeSources(S, D.nodes[n].space)) IN
+              IF srcs # <<>> /\ fr.optsrc THEN
+                  LET expected == Len(D.nodes) + P2[Len(srcs) + 1] IN
+                  IF expected > cfg.maxm THEN <<D, Fail(fr)>>
+                  ELSE IF fr.limsize # Unl /\ expected > fr.limsize THEN <<D, Finish(fr, "false")>>
+                  ELSE LET r  == SourceKids(S, D, n, srcs, 0, {})
+                           D1 == [MarkExpanded(r[1], n, "other") EXCEPT !.nodes[n].seeds = Known(<<>>), !.nodes[n].sets = Known(<<>>)]
+                       IN <<D1, [fr EXCEPT !.nxt = @ \cup r[2], !.i = @ + 1]>>
+              ELSE LET x == DoExpand(S, cfg, D, fr, n) IN
+                   IF x.err THEN <<x.d, Fail(x.fr)>>
+                   ELSE LET f1   == Logged(fr, x, n)
+                            succ == SortAsc(Succs(x.d, n)) IN
+                        IF succ = <<>> THEN <<x.d, [f1 EXCEPT !.i = @ + 1]>>
+                        ELSE IF Len(succ) = 1 /\ ~fr.maa THEN <<x.d, [f1 EXCEPT !.nxt = @ \cup {succ[1]}, !.i = @ + 1]>>
+                        ELSE LET mb == BlockOrder(MinimalBlocks(GroupBlocks(S, x.d, n, succ, <<>>))) IN
+                             IF ~fr.maa THEN <<x.d, [f1 EXCEPT !.nxt = @ \cup SeqToSet(mb[1].nodes), !.i = @ + 1]>>
+                             ELSE <<x.d, [f1 EXCEPT !.phase = "clean", !.mblocks = mb, !.bj = 1]>>
+
+---------------------------------------------------------------------------
 \* dispatch
 StepFrame(S, cfg, D, fr, b) ==
     CASE fr.op = "exp"    -> ExpStep(S, cfg, D, fr)
@@ -448,13 +548,19 @@ StepFrame(S, cfg, D, fr, b) ==
       [] fr.op = "tgt"    -> TgtStep(S, cfg, D, fr)
       [] fr.op = "min"    -> MinStep(S, cfg, D, fr)
       [] fr.op = "aseeds" -> ASeedsStep(S, cfg, D, fr, b)
+      [] fr.op = "block"  -> BlockStep(S, cfg, D, fr, b)
+NeedsOracle(D, fr) == ASeedsNeedsOracle(D, fr) \/ BlockNeedsOracle(fr)
+OracleChoices(S, D, fr) ==
+    IF BlockNeedsOracle(fr)
+    THEN {FALSE} \cup (IF BlockHasOwnAttr(S, D, fr.cur[fr.i], fr.mblocks[fr.bj]) THEN {} ELSE {TRUE})
+    ELSE ASeedsOracleChoices(S, D, fr)
 
 \* run to completion; oracle answers are consumed from the sequence `orc` (missing answers: TRUE)
 RECURSIVE RunFrame(_, _, _, _, _)
 RunFrame(S, cfg, D, fr, orc) ==
     IF fr.done THEN <<D, fr, orc>>
-    ELSE IF ASeedsNeedsOracle(D, fr)
-         THEN LET r == StepFrame(S, cfg, D, fr, IF orc = <<>> THEN TRUE ELSE Head(orc))
+    ELSE IF NeedsOracle(D, fr)
+         THEN LET r == StepFrame(S, cfg, D, fr, IF orc = <<>> THEN (fr.op # "block") ELSE Head(orc))
               IN RunFrame(S, cfg, r[1], r[2], IF orc = <<>> THEN orc ELSE Tail(orc))
          ELSE LET r == StepFrame(S, cfg, D, fr, TRUE) IN RunFrame(S, cfg, r[1], r[2], orc)
 
